@@ -93,7 +93,7 @@ Qed.
 Theorem step_inv s op : inv s -> inv (fst (server_step s op)).
 Proof.
   intros [[Hk Hnd] Hl]. unfold inv, server_step.
-  destruct op as [c o|a|a| | |].
+  destruct op as [c o|a|a| | | |].
   - destruct (negb (opts_validate o)) eqn:Eo; [split; [split|]; assumption|].
     destruct (negb (cfg_validate c o)) eqn:Ec; [split; [split|]; assumption|].
     destruct (lookup (c_remote c) (s_peers s)) as [v|] eqn:El; [split; [split|]; assumption|].
@@ -120,12 +120,16 @@ Proof.
   - split; [split|]; assumption.
   - split; [split|]; assumption.
   - destruct (s_closed s); [split; [split|]; assumption|].
+    destruct (s_serving s) eqn:Esv; [split; [split|]; assumption|].
     cbn [fst s_peers s_serving s_running]. split; [split; assumption|].
     unfold lifecycle_ok. cbn [s_serving s_running s_peers]. intros a; reflexivity.
   - destruct (s_serving s) eqn:Es; cbn [fst s_peers s_serving s_running];
       (split; [split; assumption|]); unfold lifecycle_ok in *; cbn [s_serving s_running].
     + reflexivity.
     + rewrite Es in Hl. exact Hl.
+  - destruct (s_serving s) eqn:Es; cbn [fst s_peers s_serving s_running].
+    + split; [split; assumption|]. unfold lifecycle_ok. cbn [s_serving s_running]. reflexivity.
+    + split; [split; assumption|]. exact Hl.
 Qed.
 
 Theorem init_inv : inv server_init.
@@ -138,7 +142,7 @@ Theorem step_refines s op :
   spec_step (abs s) (s_serving s) (s_closed s) op out (abs s') (s_serving s') (s_closed s').
 Proof.
   intros [[Hk Hnd] Hl]. unfold server_step, spec_step.
-  destruct op as [c o|a|a| | |].
+  destruct op as [c o|a|a| | | |].
   - rewrite <- validate_iff_usable.
     destruct (opts_validate o) eqn:Eo; cbn [negb andb].
     2:{ repeat split; reflexivity. }
@@ -175,9 +179,13 @@ Proof.
     + intros [a Ha]. unfold abs in Ha. destruct (lookup a (s_peers s)) as [[c' o']|] eqn:El; [|discriminate].
       injection Ha as ->. apply lookup_some in El as [k [Hin _]]. exists (k, (c, o')). split; [reflexivity|assumption].
   - destruct (s_closed s) eqn:Ecl.
-    + cbn. repeat split; rewrite ?orb_false_r, ?Ecl; reflexivity.
-    + cbn [s_serving s_closed negb]. repeat split; rewrite ?orb_true_r, ?Ecl; reflexivity.
+    + cbn. repeat split; rewrite ?orb_false_r, ?Ecl; try reflexivity. right. reflexivity.
+    + destruct (s_serving s) eqn:Esv.
+      * repeat split; assumption.
+      * cbn [s_serving s_closed negb]. repeat split; rewrite ?orb_true_r, ?Ecl; try reflexivity. left. reflexivity.
   - destruct (s_serving s) eqn:Es; cbn [s_serving s_closed]; repeat split; rewrite ?Es; reflexivity.
+  - destruct (s_serving s) eqn:Es; cbn [s_serving s_closed]; repeat split;
+      rewrite ?Es, ?orb_true_r, ?orb_false_r; reflexivity.
 Qed.
 
 (* lifted to every operation sequence from the initial server *)
